@@ -208,6 +208,24 @@ def spParse (ts : List String) : Option SObs :=
     | _ => none
   | _ => none
 
+/-! ### mgr -/
+
+def mgrInput (ts : List String) : Option (Nat × Nat) :=
+  match natAfter "n" ts, natAfter "ms" ts with
+  | some n, some ms => if n ≥ 1 then some (n, ms) else none
+  | _, _ => none
+
+def mgrShow (o : MObs) : String :=
+  s!"closed {if o.closed then 1 else 0} after {if o.afterOk then "ok" else "bad"} leak {o.leak}"
+
+def mgrParse (ts : List String) : Option MObs :=
+  match ts with
+  | ["closed", c, "after", a, "leak", g] =>
+    match c.toNat?, g.toNat? with
+    | some c, some g => some ⟨c == 1, a == "ok", g⟩
+    | _, _ => none
+  | _ => none
+
 /-! ### entry points -/
 
 def runModel (ts : List String) : String :=
@@ -234,6 +252,11 @@ def runModel (ts : List String) : String :=
     match spInput ts with
     | some i => spShow (sObs (sFinal .repaired i.ops i.n (spSched i)))
     | none => "bad-case"
+  | "mgr" :: _ =>
+    -- two clean handlers: ResourceBase.onClose and the component's own onClose
+    match mgrInput ts with
+    | some (n, ms) => mgrShow (mObs (dFinal [false, false] n (lcgSched ms n (2 * n))))
+    | none => "bad-case"
   | _ => "bad-case"
 
 def runHolds (caseToks obsToks : List String) : String :=
@@ -258,6 +281,10 @@ def runHolds (caseToks obsToks : List String) : String :=
   | "sp" :: _ =>
     match spInput caseToks, spParse obsToks with
     | some _, some o => holdsS o
+    | _, _ => false
+  | "mgr" :: _ =>
+    match mgrInput caseToks, mgrParse obsToks with
+    | some _, some o => holdsM o
     | _, _ => false
   | _ => false
 
